@@ -24,7 +24,7 @@ func (c *Ctx) compareFuncs() (cmp *ssa.Function, cmps, compares, ases []*ssa.Fun
 			continue
 		}
 		o := f.Origin()
-		if o == nil && f.Parent() == nil && f.Name() == "compare" && f.Synthetic == "" && f.TypeParams().Len() == 0 {
+		if o == nil && f.Parent() == nil && fnShort(f) == "compare" && f.Synthetic == "" && f.TypeParams().Len() == 0 {
 			// the helper written without type parameters (its left operand is an `any` that holds a number)
 			compares = append(compares, f)
 			continue
@@ -396,7 +396,7 @@ func ruleC15Dispatch(c *Ctx) {
 		}
 		if call, isCall := t.V.(*ssa.Call); isCall {
 			cal := call.Common().StaticCallee()
-			if cal != nil && (cal.Origin() != nil && cal.Origin().Name() == "compare" || cal.Origin() == nil && cal.Name() == "compare" && funcPkgPath(cal) == comparePath) {
+			if cal != nil && (cal.Origin() != nil && fnShort(cal.Origin()) == "compare" || cal.Origin() == nil && fnShort(cal) == "compare" && funcPkgPath(cal) == comparePath) {
 				// args: asserted a, then b
 				if len(t.Args) == 2 && t.Args[0].Op == "ext" && t.Args[0].Args[0].Op == "assertok" && t.Args[0].Args[0].Args[0].Op == "param" && t.Args[0].Args[0].Args[0].Name == a &&
 					t.Args[1].Op == "param" && t.Args[1].Name == b {
